@@ -2019,4 +2019,167 @@ theorem World.readInto_spec (i : Nat) (fuel : Nat) : ∀ (w : World) (v : Iov) (
           rw [e] at this
           exact this
 
+/-! ### Remaining operations at the level of `step` -/
+
+theorem refines_registerPatch (i : Nat) (s : State) (pat : List UInt8) (hinv : Inv i s) :
+    Refines i s (.registerPatch pat) := by
+  obtain ⟨v, hv, hi⟩ := hinv
+  by_cases hne : pat = []
+  · subst hne
+    have h1 : s.w.registerPatch i [] = some (s.w, none) := by unfold World.registerPatch; rfl
+    refine ⟨{ s with nextId := s.nextId + 1 }, .token none, by simp only [step, h1]; rfl, ⟨v, hv, hi⟩, ?_, rfl⟩
+    rw [abs_eq i s v hv, abs_eq i { s with nextId := s.nextId + 1 } v hv]
+    simp [specStep, Pipe.registerAs]
+  · obtain ⟨w', v', info, h1, h2, h3, h4, h5, h6, _⟩ := World.registerPatch_spec s.w i v pat hv hi hne
+    refine ⟨_, _, by simp only [step, h1]; rfl, ⟨v', h2, h3⟩, ?_, ?_⟩
+    · rw [abs_eq i s v hv, abs_eq i _ v' h2]
+      simp only [specStep, Pipe.registerAs, h5]
+    · rw [abs_eq i s v hv]
+      exact ⟨hne, h4, h6⟩
+
+theorem refines_backfill (i : Nat) (s : State) (v : Iov) (tok : Backref) (src : List UInt8)
+    (hv : s.w.iov i = some v) (hi : IovInv s.w v) (hvalid : ValidToken v tok src) :
+    Refines i s (.backfill tok src) := by
+  cases tok with
+  | none =>
+    simp only [ValidToken] at hvalid
+    subst hvalid
+    have h1 : s.w.backfill i none [] = some s.w := by unfold World.backfill; rw [hv]; rfl
+    exact ⟨_, _, by simp only [step, h1]; rfl, ⟨v, hv, hi⟩, rfl, rfl⟩
+  | some e =>
+    obtain ⟨he, hl⟩ := hvalid
+    obtain ⟨w', v', h1, h2, h3, h4, _⟩ := World.backfill_spec s.w i v e src hv hi he hl
+    obtain ⟨key, info⟩ := e
+    refine ⟨_, _, by simp only [step, h1]; rfl, ⟨v', h2, h3⟩, ?_, rfl⟩
+    rw [abs_eq i s v hv, abs_eq i _ v' h2]
+    simp only [specStep, Pipe.fill, h4]
+
+theorem step_backfill_invalid (i : Nat) (s : State) (v : Iov) (tok : Backref) (src : List UInt8)
+    (hv : s.w.iov i = some v) (h : ¬ ValidToken v tok src) : step i s (.backfill tok src) = none := by
+  simp only [step, World.backfill_invalid s.w i v tok src hv h]
+  rfl
+
+/-- The general form of `consumer_refines`: the new world may be any world with the same memory. -/
+theorem consumer_refines' (i : Nat) (s : State) (w' : World) (v v' : Iov) (m : Nat) (hv : s.w.iov i = some v)
+    (hv' : w'.iov i = some v') (hmem : SameMem s.w w')
+    (hinv : IovInv s.w v) (hc : Consumed s.w v v' m) (hm : m ≤ sumLens (v.slices.take v.stableN)) :
+    Inv i { s with w := w', ghost := s.ghost ++ (s.w.flat v.slices).take m } ∧
+    abs i { s with w := w', ghost := s.ghost ++ (s.w.flat v.slices).take m }
+      = ((abs i s).consume ((s.w.flat v.slices).take m).length).1 ∧
+    (s.w.flat v.slices).take m <+: (abs i s).stable ∧ ((s.w.flat v.slices).take m).length = m := by
+  obtain ⟨g1, g2, g3, g4⟩ := consumer_refines i s v v' m hv hinv hc hm
+  refine ⟨⟨v', hv', hmem.inv hc.inv⟩, ?_, g3, g4⟩
+  rw [← g2, abs_eq i _ v' hv', abs_eq i _ v' (by simp)]
+  simp only [absCells_setIov]
+  unfold absCells
+  rw [hmem.flat]
+
+theorem refines_readInto (i : Nat) (s : State) (room : Nat) (hinv : Inv i s) :
+    Refines i s (.readInto room) := by
+  obtain ⟨v, hv, hi⟩ := hinv
+  obtain ⟨w', v', h1, h2, h3, h4⟩ := World.readInto_spec i (room + 2) s.w v room [] hv hi (by omega)
+  have hm : min room (s.w.visible v).length ≤ sumLens (v.slices.take v.stableN) := by
+    rw [hi.visible_length]; exact Nat.min_le_right _ _
+  obtain ⟨g1, g2, g3, g4⟩ := consumer_refines' i s w' v v' _ hv h2 h3 hi h4 hm
+  have hrm : (s.w.flat v.slices).take (min room (s.w.visible v).length) = (s.w.visible v).take room := by
+    obtain ⟨rest, hrest⟩ := visible_prefix_flat s.w v
+    rw [← hrest, List.take_append_of_le_length (Nat.min_le_right _ _)]
+    rw [List.take_eq_take_iff]; simp
+  rw [hrm] at g1 g2 g3 g4
+  simp only [List.nil_append] at h1
+  refine ⟨{ s with w := w', ghost := s.ghost ++ (s.w.visible v).take room },
+    .took ((s.w.visible v).take room).length ((s.w.visible v).take room),
+    by simp only [step, h1]; rfl, g1, g2, rfl, ?_, g3⟩
+  rw [g4]; exact Nat.min_le_left _ _
+
+theorem refines_pop (i : Nat) (s : State) (v : Iov) (hv : s.w.iov i = some v) (hi : IovInv s.w v)
+    (hn : 0 < v.stableN) : Refines i s .pop := by
+  unfold Refines
+  simp only [step, hv]
+  obtain ⟨v', h1, h2⟩ := World.consume_spec s.w i v 1 hv hi
+  have h11 : min 1 v.stableN = 1 := by omega
+  rw [h11] at h1 h2
+  rw [h1]
+  have hm : sumLens (v.slices.take 1) ≤ sumLens (v.slices.take v.stableN) := sumLens_take_mono _ hn
+  obtain ⟨g1, g2, g3, _⟩ := consumer_refines i s v v' _ hv hi h2 hm
+  rw [flat_take_prefix s.w v.arena v.slices _ hi.slices_ok] at g1 g2 g3
+  exact ⟨_, _, rfl, g1, g2, rfl, g3⟩
+
+theorem step_pop_empty (i : Nat) (s : State) (v : Iov) (hv : s.w.iov i = some v) (hi : IovInv s.w v)
+    (hn : v.stableN = 0) : step i s .pop = none := by
+  simp only [step, hv]
+  obtain ⟨v', h1, _⟩ := World.consume_spec s.w i v 1 hv hi
+  rw [h1, hn]
+  rfl
+
+theorem refines_clear (i : Nat) (s : State) (hinv : Inv i s) : Refines i s .clear := by
+  obtain ⟨v, hv, hi⟩ := hinv
+  have h1 : s.w.clear i = some (s.w.setIov i (some { Iov.empty with arena := v.arena })) := by
+    unfold World.clear; rw [hv]
+  refine ⟨{ s with w := s.w.setIov i (some { Iov.empty with arena := v.arena }), ghost := [] }, .unit,
+    by simp only [step, h1]; rfl,
+    ⟨{ Iov.empty with arena := v.arena }, by simp, (IovInv.empty s.w v.arena hi.cache_fresh).setIov _ _⟩, ?_, rfl⟩
+  rw [abs_eq i s v hv, abs_eq i _ { Iov.empty with arena := v.arena } (by simp)]
+  simp [specStep, Pipe.clear, absCells, Iov.empty, mkCells]
+
+/-- Replacing the arena by one whose cache (if any) lies above every owned slice. -/
+theorem IovInv.set_arena {w w' : World} {v : Iov} (h : IovInv w v) (a' : Arena)
+    (hexts : w'.exts = w.exts) (hnext : w.next ≤ w'.next)
+    (hcache : ∀ ca', a'.cache = some ca' → ca'.chunk < w'.next ∧
+      ∀ s ∈ v.slices, ∀ c, s.region = .chunk c → ca'.chunk = c → s.off + s.len ≤ ca'.bump) :
+    IovInv w' { v with arena := a' } :=
+  { slices_ok := fun s hs =>
+      { pos := (h.slices_ok s hs).pos
+        ext := fun b hb => by rw [hexts]; exact (h.slices_ok s hs).ext b hb
+        chunk := fun c hc => ⟨Nat.lt_of_lt_of_le ((h.slices_ok s hs).chunk c hc).1 hnext,
+          fun ca' hca' hcc => (hcache ca' hca').2 s hs c hc hcc⟩ }
+    ordered := h.ordered, size_eq := h.size_eq, anchors_pos := h.anchors_pos, anchors_sum := h.anchors_sum
+    cache_fresh := fun ca' hca' => (hcache ca' hca').1
+    br_ok := fun e he => (h.br_ok e he).congr rfl rfl rfl
+    br_sorted := h.br_sorted }
+
+theorem refines_flush (i : Nat) (s : State) (hinv : Inv i s) : Refines i s .flush := by
+  obtain ⟨v, hv, hi⟩ := hinv
+  refine ⟨{ s with w := s.w.setIov i (some { v with arena := flush v.arena }) }, .unit, by simp only [step, hv],
+    ⟨{ v with arena := flush v.arena }, by simp, ?_⟩, ?_, rfl⟩
+  · apply IovInv.setIov
+    exact hi.set_arena (flush v.arena) rfl (Nat.le_refl _) (by intro ca' h; cases h)
+  · rw [abs_eq i s v hv, abs_eq i _ { v with arena := flush v.arena } (by simp)]
+    simp [specStep, absCells]
+
+theorem refines_reserve (i : Nat) (s : State) (k : Nat) (hinv : Inv i s) : Refines i s (.reserve k) := by
+  obtain ⟨v, hv, hi⟩ := hinv
+  have hcases : (ensureCapacity s.w.tun v.arena s.w.next k = (v.arena, s.w.next)) ∨
+      ∃ cap, ensureCapacity s.w.tun v.arena s.w.next k = (⟨some ⟨s.w.next, cap, 0⟩⟩, s.w.next + 1) := by
+    unfold ensureCapacity
+    cases hc : v.arena.cache with
+    | none => right; exact ⟨_, rfl⟩
+    | some c =>
+      simp only
+      by_cases hr : c.remaining ≥ k
+      · left; rw [if_pos hr]
+      · right; rw [if_neg hr]; exact ⟨_, rfl⟩
+  rcases hcases with he | ⟨cap, he⟩
+  · refine ⟨{ s with w := { s.w with next := s.w.next }.setIov i (some { v with arena := v.arena }) }, .unit,
+      by simp only [step, hv, he], ⟨{ v with arena := v.arena }, by simp, ?_⟩, ?_, rfl⟩
+    · apply IovInv.setIov
+      exact hi.set_arena (w' := { s.w with next := s.w.next }) v.arena rfl (Nat.le_refl _)
+        (fun ca' hca' => ⟨hi.cache_fresh ca' hca', fun x hx c hc hcc => ((hi.slices_ok x hx).chunk c hc).2 ca' hca' hcc⟩)
+    · rw [abs_eq i s v hv, abs_eq i _ { v with arena := v.arena } (by simp)]
+      simp only [specStep, absCells_setIov]
+  · refine ⟨{ s with w := { s.w with next := s.w.next + 1 }.setIov i (some { v with arena := ⟨some ⟨s.w.next, cap, 0⟩⟩ }) },
+      .unit, by simp only [step, hv, he], ⟨{ v with arena := ⟨some ⟨s.w.next, cap, 0⟩⟩ }, by simp, ?_⟩, ?_, rfl⟩
+    · apply IovInv.setIov
+      apply hi.set_arena (w' := { s.w with next := s.w.next + 1 }) _ rfl (Nat.le_succ _)
+      intro ca' hca'
+      simp only [Option.some.injEq] at hca'
+      subst hca'
+      refine ⟨Nat.lt_succ_self _, fun x hx c hc hcc => ?_⟩
+      have := ((hi.slices_ok x hx).chunk c hc).1
+      simp only at hcc
+      omega
+    · rw [abs_eq i s v hv, abs_eq i _ { v with arena := ⟨some ⟨s.w.next, cap, 0⟩⟩ } (by simp)]
+      simp only [specStep, absCells_setIov]
+      rfl
+
 end Woodpile.Iovec
